@@ -21,7 +21,7 @@ TRUSTED_BASE = [
 ASSUMPTIONS = [
     "floats treated as reals/complex (A1)",
     "normalisation obligations in the generic engine are proved under the side condition that no tested column norm is zero (where(scales == 0, 1, scales) = scales); zero columns are covered at enumerated sizes by the dense obligations",
-    "order enumerated (<=3 quick, <=4 thorough)",
+    "order enumerated (<=4 quick, <=5 thorough)",
 ]
 QUANTIFICATION = "forall mode sizes, ranks, entries; enumerated: order, mode, operand kind, keep_dim/copy, tenalg backend"
 EXPLANATION = "to_tensor(transform(F)) is proved equal, in canonical form, to the same dense operation applied to to_tensor(F)."
@@ -39,7 +39,7 @@ def obligations(tier):
     import tensorly.tr_tensor as trt
     import tensorly.parafac2_tensor as p2t
 
-    maxN = 3 if tier == "quick" else 4
+    maxN = 4 if tier == "quick" else 5
     obs = []
     R, J = atom("R"), atom("J")
 
